@@ -132,13 +132,15 @@ SPECS.append({
 SPECS.append({
  "property_id": "C09", "level": "model_checking",
  "explanation": "The crash point is a solver variable: the engine's file-system model lets the next write stop after k bytes (k any non-negative integer) either by returning an error (disk full, quota) or by killing the process; rename is atomic. After the event the live file is loaded through the real loaders and must hold exactly the previous or exactly the new entries; a save that reports success must have taken effect. Counterexamples are replayed natively with RLIMIT_FSIZE cutting the real write.",
- "assumptions": ["file-system model: a write of n bytes may stop after any k <= n bytes leaving the prefix; os.Rename within a directory is atomic; a torn document does not decode to the old or new content", "yaml / json encoders are opaque documents (round-trip identity)"],
+ "assumptions": ["file-system model: while the fault lasts no file can grow beyond k bytes (any k >= 0), a cut write leaves the prefix and either returns an error or kills the process; os.Rename within a directory is atomic; os.OpenFile / (*os.File).Write honour O_TRUNC / O_APPEND / O_EXCL; a torn or mixed document does not decode to the old or new content", "yaml / json encoders are opaque documents (round-trip identity)"],
  "stubs": ["file-system model with write plans", "yaml / json stubs"],
  "outside_the_claim": ["power loss / fsync durability", "faults on the directory creation or rename steps themselves"],
  "trusted_base": TB + ["the file-system model (written from POSIX write/rename semantics)"],
  "harnesses": [
   H("C09", "internal/history", "HistorySave", "both", ["completed", "interrupted"], "k any int >= 0; event: error or kill", "history update made by every search"),
   H("C09", "internal/history", "HistoryClear", "both", ["completed", "interrupted"], "same", "Clear"),
+  H("C09", "internal/history", "HistoryThenClear", "both", ["completed", "interrupted"], "interrupted save, then an undisturbed shorter save (Clear)", "nothing of an interrupted write leaks into a later one"),
+  H("C09", "internal/utils", "AtomicHelper", "both", ["done", "interrupted"], "old / new1 / new2 contents of 0-4 symbolic bytes; k any int >= 0; error or kill; then an undisturbed second replacement", "the shared atomic-write helper on arbitrary contents"),
   H("C09", "internal/cli", "Notebook", "both", ["completed", "interrupted"], "same; notebook with 2 entries + 1 new", "saveToPersonalDatabase (both save commands write through it)"),
  ],
  "manifest": {"text": "Bounded symbolic fault injection: the byte offset at which a write stops is a solver variable in a file-system model; old-or-new atomicity is asserted through the real loaders and counterexamples are replayed with a real file-size limit.",
